@@ -22,6 +22,7 @@ import DiskfsModel.Model.Ext4.ReaderCfg
 import DiskfsModel.Proofs.Ext4SparseRead
 import DiskfsModel.Proofs.Ext4Xattr
 import DiskfsModel.Proofs.Ext4Spec
+import DiskfsModel.Proofs.Ext4ReadSkipNeg
 import DiskfsModel.Model.Ext4.ImageSpec
 namespace Diskfs.Ext4.Reader.C20
 
@@ -333,6 +334,23 @@ theorem read_tree_spec (d : Nat) (t : TreeD d) (lo hi : Nat) (h : TreeWF d t lo 
   unfold logicalByte
   rw [extent_tree_flatten d t lo hi h]
   cases specLookup d t ((off + i) / bs) <;> rfl
+
+/-- File.Read as the tree has it, with or without the guard `if leftInExtent < 0 { continue }` (the repair of
+    finding ext4-read-extent-out-of-order; which one the driver runs is regenerated from file.go:
+    Ext4Ref.readSkipsExtentBefore): on every sorted non-overlapping extent list the guarded loop returns exactly
+    what the loop without the guard returns — the branch is never reached — so read_sparse_spec, read_sparse_seq,
+    read_sparse_until_eof and read_tree_spec hold for the guarded File.Read as well -/
+theorem read_sparse_guard_unreached (skip : Bool) (dev : Dev) (devSize bs : Nat) (es : List Extent)
+    (size off n : Nat) (hbs : 0 < bs) (hs : SortedExts es) (hd : ExtsOnDev bs devSize es) :
+    sparseReadC skip dev devSize bs es size off n = sparseRead dev devSize bs es size off n :=
+  sparseReadC_eq skip dev devSize bs es size off n (read_sparse_no_panic dev devSize bs es size off n hbs hs hd).1
+
+/-- on an out-of-order list the two differ: without the guard a negative length reaches `make` (panic), with
+    it the extent that lies before the offset is passed over and the rest of the request reads as a hole -/
+theorem cex_read_out_of_order :
+    sparseReadC false (fun _ => 7) 1000 4 [⟨2, 20, 2⟩, ⟨0, 10, 1⟩] 16 8 8 = .panic 16 ∧
+    sparseReadC true (fun _ => 7) 1000 4 [⟨2, 20, 2⟩, ⟨0, 10, 1⟩] 16 8 8 = .ok ⟨[7, 7, 7, 7, 7, 7, 7, 7], 16, true, [(80, 8)]⟩ := by
+  decide
 
 /-! ### unwritten (preallocated) extents -/
 
